@@ -828,7 +828,9 @@ def _m1(ctx, R):
                 fa = fa | frozenset(expand_defs(a, fa) for a in fa if not a.startswith("def("))
                 nodef = any(a in fa for a in ("falsy(self.definition)", "is(self.definition,None)", "falsy(self._definition)", "is(self._definition,None)"))
                 via_callee = any(t.startswith("V:") and t.endswith((":Instance._pins.setitem", ":Instance._pins.update")) for t in tk)
-                if not (looped or nodef or via_callee):
+                # leaving because the reference set is empty is the loop over nothing
+                norefs = any(re.match(r"falsy\((.+\.)?_?references\)$", a) or re.match(r"eq\(len\((.+\.)?_?references\),0\)$", a) for a in fa)
+                if not (looped or nodef or via_callee or norefs):
                     ok_all = False
                     why = "a path links the %s and returns without iterating the definition's references to create the outer pins" % what
             # the install statement itself must be well-formed wherever it is reachable from this function
@@ -839,7 +841,7 @@ def _m1(ctx, R):
                 if fn.key in seen or depth > 4:
                     return
                 seen.add(fn.key)
-                for s in _outerpin_install_sites(fn):
+                for s in _outerpin_install_sites(inlined_view(P, fn)):
                     sites.append((fn, s))
                 fe = ctx.model.events(fn)
                 for evs in fe.by_node.values():
@@ -1065,9 +1067,8 @@ def _m2_m6(ctx, R):
                 scope = prev_loops[-1].body if prev_loops else []
                 scope_nodes = [x for s in scope for x in ast.walk(s)]
             disc = [x for x in scope_nodes if isinstance(x, ast.Call) and isinstance(x.func, ast.Attribute) and x.func.attr == "disconnect_pin"]
-            nulls = {norm(x.targets[0]).split(".")[-1] for x in scope_nodes if isinstance(x, ast.Assign)
-                     and isinstance(x.value, ast.Constant) and x.value.value is None and isinstance(x.targets[0], ast.Attribute)
-                     and x.targets[0].attr in ("_instance", "_inner_pin")}
+            nulls = {t_.attr for x in scope_nodes if isinstance(x, ast.Assign) and isinstance(x.value, ast.Constant) and x.value.value is None
+                     for t_ in x.targets if isinstance(t_, ast.Attribute) and t_.attr in ("_instance", "_inner_pin")}
             probs = []
             if not disc:
                 probs.append("never takes the outer pin off its wire (no disconnect_pin call for the pins being dropped)")
@@ -1172,8 +1173,11 @@ def _m5_m7(ctx, R):
     targets = [nl.props.get("top_instance", {}).get("setter"), nl.methods.get("set_top_instance")]
     if None in targets:
         raise AnalysisError("anchor vanished: Netlist.top_instance setter / set_top_instance")
-    for f in targets:
-        fe = M.events(f)
+    from ..effects import FuncEvents
+    for f0 in targets:
+        # read with private helpers in place (the wrapping may have been given a name of its own)
+        f = inlined_view(P, f0)
+        fe = M.events(f) if f is f0 else FuncEvents(P, f, M)
         direct = [ev for evs in fe.by_node.values() for ev in evs if ev.kind == "write" and ev.field in ("_reference", "_references", "_pins") and ev.cls in ("Instance", "Definition")]
         via = [ev for evs in fe.by_node.values() for ev in evs if ev.kind == "call" and any(t.qualname == "Instance.reference.setter" for t in ev.targets or [])]
         if direct:
